@@ -2,7 +2,7 @@
 
 use path_clean::clean;
 use std::collections::{BTreeMap, HashSet};
-use std::fs::{canonicalize as canonicalize_path, symlink_metadata, File};
+use std::fs::{canonicalize as canonicalize_path, File};
 use std::io::{self, BufReader, Write};
 use std::process::Command;
 use walkdir::WalkDir;
@@ -114,6 +114,8 @@ pub fn record_artifacts(
     // Initialize artifacts
     let mut artifacts: BTreeMap<VirtualTargetPath, TargetDescription> =
         BTreeMap::new();
+    // the file-system path every recorded key came from
+    let mut sources: BTreeMap<VirtualTargetPath, String> = BTreeMap::new();
     // For each path provided, walk the directory and add all files to artifacts
     for path in paths {
         // Normalize path
@@ -129,23 +131,30 @@ pub fn record_artifacts(
                     walker.skip_current_dir();
                 } else {
                     visited_sym_links.insert(String::from(&path));
-                    // s_path: the actual path the symbolic link is pointing to
-                    let s_path =
-                        match std::fs::read_link(&path)?.as_path().to_str() {
-                            Some(str) => String::from(str),
-                            None => break,
-                        };
-                    if symlink_metadata(s_path)?.file_type().is_file() {
+                    // Does the link (resolved relative to its own location,
+                    // through any further links) end at a regular file?
+                    let points_to_file = std::fs::metadata(&path)
+                        .map(|m| m.is_file())
+                        .unwrap_or(false);
+                    if points_to_file {
                         let (virtual_target_path, hashes) = record_artifact(
                             &path,
                             hash_algorithms,
                             lstrip_paths,
                         )?;
-                        if artifacts.contains_key(&virtual_target_path) {
+                        if let Some(source) = sources.get(&virtual_target_path)
+                        {
+                            // the same path reached again through another
+                            // (overlapping) path argument is not a collision
+                            if *source == path {
+                                continue;
+                            }
                             return Err(Error::LinkGatheringError(format!(
                                 "non unique stripped path {virtual_target_path}"
                             )));
                         }
+                        sources
+                            .insert(virtual_target_path.clone(), path.clone());
                         #[cfg(in_toto_verif)]
                         crate::verif::emit(serde_json::json!({"ev": "recorded", "path": path, "key": virtual_target_path, "via": "symlink"}));
                         artifacts.insert(virtual_target_path, hashes);
@@ -156,11 +165,15 @@ pub fn record_artifacts(
             if file_type.is_file() {
                 let (virtual_target_path, hashes) =
                     record_artifact(&path, hash_algorithms, lstrip_paths)?;
-                if artifacts.contains_key(&virtual_target_path) {
+                if let Some(source) = sources.get(&virtual_target_path) {
+                    if *source == path {
+                        continue;
+                    }
                     return Err(Error::LinkGatheringError(format!(
                         "non unique stripped path {virtual_target_path}"
                     )));
                 }
+                sources.insert(virtual_target_path.clone(), path.clone());
                 #[cfg(in_toto_verif)]
                 crate::verif::emit(serde_json::json!({"ev": "recorded", "path": path, "key": virtual_target_path, "via": "file"}));
                 artifacts.insert(virtual_target_path, hashes);
